@@ -22,7 +22,6 @@ IsEvent(name) == l <= Len(Traces[tid].events) /\ Ev.act = name /\ l' = l + 1 /\ 
 (* the logged register is compared as a rational quaternion (the log is not reduced) *)
 Logged == /\ ScaleQ(Ev.den, num') = ScaleQ(den', Tup4(Ev.num))
           /\ ord' = Ev.ord
-          /\ NonZero'      \* invariant as a guard (TLC would stop the whole batch at a violated INVARIANT)
 
 TMulRight == IsEvent("MulRight") /\ MulRight(Ev.route, Tup4(Ev.v)) /\ Logged
 TMulLeft  == IsEvent("MulLeft")  /\ MulLeft(Ev.route, Tup4(Ev.v))  /\ Logged
@@ -43,7 +42,10 @@ TDerive   == IsEvent("Derive") /\ Derive(Ev.route) /\ Logged
 TNormalize == IsEvent("Normalize") /\ Normalize /\ Logged
 TraceNext == TDerive \/ TNormalize \/ TMulRight \/ TMulLeft \/ TConj \/ TInvert \/ TInvertAsBuilt \/ TRestore \/ TObserve
 TraceSpec == TraceInit /\ [][TraceNext]_tvars
-Progress == LET f == TLCGet(1) IN IF f[tid] < l THEN TLCSet(1, [f EXCEPT ![tid] = l]) ELSE TRUE
+(* a state that violates an invariant is pruned and does not count as progress (an INVARIANT in the cfg would stop
+   the whole batch at the first violation; priming the invariants into the actions is an order of magnitude slower) *)
+TraceInv == NonZero
+Progress == TraceInv /\ (LET f == TLCGet(1) IN IF f[tid] < l THEN TLCSet(1, [f EXCEPT ![tid] = l]) ELSE TRUE)
 Accepted == LET f == TLCGet(1) IN
             \A t \in 1..Len(Traces) : \/ f[t] = Len(Traces[t].events) + 1
                                       \/ PrintT(<<"REJECTED", t, f[t]>>) /\ FALSE
